@@ -251,6 +251,9 @@ def run(rep, tier, root=None):
     # ------------------------------------------------------------------ A10 / A11 gkl_fcom
     fcom(rep, ix)
 
+    # ------------------------------------------------------------------ A13 kernel = azimuthal DFT of the structure function
+    kernel_rule(rep, ix)
+
     purity_obligations(rep, ix, [F(n) for n in ("make_kl", "gkl_basis", "gkl_fcom", "gkl_kernel", "gkl_sfi", "pol2car", "pcgeom")],
                        "A12.pure", "the basis returned for (nmax, dim, ri, nr) would depend on earlier calls")
     rep.floor("C13 obligations", len(rep.obligations), 30)
@@ -510,6 +513,75 @@ def piston(rep, ix):
     al = [a for a in I.alloc_log if a[0] == f.fq]
     rep.check(len(al) == 1 and same_value(al[0][2][0] if al[0][2] else None, (nr, nr)), "A8.piston", f.fq + ": zeros((nr, nr))",
               "allocation %s" % ([nf(x) for x in al[0][2]] if al else None), f.where())
+
+
+# ----------------------------------------------------------------------------------------------------- A13
+def kernel_rule(rep, ix):
+    """gkl_kernel: L[i, j, :] = L[j, i, :] = -1/(4 pi (1 - ri^2)) * (2 pi / nth) * DFT_theta D( 1/2 |r_i e^{i theta} - r_j| ),
+    theta_k = 2 pi k / nth on nth = 5 nr samples of the full circle (Cannon 1996, eq. 13): the azimuthal Fourier coefficients
+    of the structure-function kernel, for every pair j <= i"""
+    f = ix.func(MOD, "gkl_kernel")
+    rep.functions_analysed.add(f.fq)
+    ri, nr, rad = S("ri", "scalar"), S("nr", "int"), S("rad", "array")
+    stfK, stfV = MOD + ":stf_kolmogorov", MOD + ":stf_vonKarman"
+    from ..plf import rpow
+    for tagname, stf, osc, callee in (("kolmogorov", "kolmogorov", None, stfK), ("vonKarman", "vonKarman", S("outerscale", "scalar"), stfV)):
+        I = Interp(ix, opaque={stfK, stfV})
+        rets = I.returns(f, [ri, nr, rad, stf, osc])
+        stores = _uniq([s_ for s_ in I.store_log if s_[0] == f.fq and s_[1] == "kernel"], lambda s_: (s_[4], vkey(s_[2]), vkey(s_[3])))
+        loops = _uniq([l for l in I.loop_log if l[0] == f.fq], lambda l: (l[1], vkey(l[2])))
+        tag = "%s[%s]" % (f.fq, tagname)
+        if len(loops) != 2 or len(stores) != 2 or not all(isinstance(l[3], RangeVal) for l in loops):
+            rep.unknown("A13.kernel", tag, "expected a double loop over (i, j <= i) with the two symmetric stores (%d loops, %d stores)" % (len(loops), len(stores)), f.where())
+            continue
+        lo_, li_ = sorted(loops, key=lambda l: l[1])
+        i_, j_ = lo_[2], li_[2]
+        rep.check(same_value((lo_[3].lo, lo_[3].hi, lo_[3].step), (Rat.const(0), nr, Rat.const(1))) and
+                  same_value((li_[3].lo, li_[3].hi, li_[3].step), (Rat.const(0), i_ + 1, Rat.const(1))), "A13.kernel",
+                  tag + ": all pairs j <= i < nr", "loops run over range(%s) x range(%s)" % (nf(lo_[3].hi), nf(li_[3].hi)), f.where())
+        full = ("slice", Rat.const(0), None, None)
+        nth = 5 * nr
+        theta = Rat.atom(Fn("arange", (Rat.const(0), nth, Rat.const(1)))) * (2 * 3.141592653589793) / nth
+        g = lambda k_: Rat.atom(Fn("getitem", (rad, k_)))
+        dist = rpow(g(i_) ** 2 + g(j_) ** 2 - 2 * g(i_) * g(j_) * Rat.atom(Fn("cos", (theta,))), Fr(1, 2)) * 0.5
+        sf = Rat.atom(Fn("call:" + callee, (dist,) if osc is None else (dist, osc)))
+        want = (-1.0 / (4 * 3.141592653589793)) / (1 - ri ** 2) * (2 * 3.141592653589793 / nth) * \
+            Rat.atom(Fn("fft", (sf, ("kw:axis", Rat.const(0)))))
+        idx_want = [(i_, j_, full), (j_, i_, full)]
+        seen_idx = set()
+        for s_ in stores:
+            hit = [k_ for k_, w_ in enumerate(idx_want) if same_value(s_[2], w_)]
+            if not hit:
+                rep.violation("A13.kernel", tag + ": store at %s" % nf(s_[2], 60), "kernel entries are stored at %s, not at [i, j, :] and [j, i, :]" % nf(s_[2], 80),
+                              "%s:%d" % (f.module.relpath, s_[4]))
+                continue
+            seen_idx.add(hit[0])
+            got = _fft_canon(s_[3])
+            check_equal(rep, "A13.kernel", tag + ": L[%s, :] = fnorm (2 pi/nth) DFT_theta D(|r_i e^{i theta} - r_j| / 2)" % ("i, j" if hit[0] == 0 else "j, i"),
+                        got, _fft_canon(want), "%s:%d" % (f.module.relpath, s_[4]), what="kernel row")
+        rep.check(seen_idx == {0, 1}, "A13.kernel", tag + ": both [i, j, :] and [j, i, :] are stored (the kernel is symmetric)",
+                  "stores found at %s" % [nf(s_[2], 40) for s_ in stores], f.where())
+        al = _uniq([a for a in I.alloc_log if a[0] == f.fq], lambda a: (a[4], vkey(tuple(a[2]))))
+        rep.check(len(al) == 1 and same_value(al[0][2][0] if al[0][2] else None, (nr, nr, nth)), "A13.kernel", tag + ": zeros((nr, nr, 5 nr))",
+                  "allocation %s" % ([nf(x) for x in al[0][2]] if al else None), f.where())
+
+
+def _fft_canon(v):
+    """numpy.fft.fft(x) and numpy.fft.fft(x, axis=0) / axis=-1 of a 1-D sample vector are the same transform"""
+    if not isinstance(v, Rat):
+        return v
+
+    def f(a):
+        if isinstance(a, Fn) and a.name == "fft" and a.args:
+            def _triv(x):
+                if not (isinstance(x, tuple) and len(x) == 2 and x[0] == "kw:axis"):
+                    return False
+                c = x[1].real_const() if isinstance(x[1], Rat) else x[1]
+                return c in (0, -1)
+            rest = [x for x in a.args[1:] if not _triv(x)]
+            return Rat.atom(Fn("fft", (a.args[0],) + tuple(rest)))
+        return None
+    return v.subst(f)
 
 
 # ----------------------------------------------------------------------------------------------------- A10 / A11
